@@ -43,7 +43,7 @@ func (g *Gen) hostileAddr(label string, self []byte) []byte {
 	case 3:
 		return cp(self)
 	case 4:
-		return cp(vmcommon.ESDTSCAddress)
+		return cp(refESDTSC)
 	case 5:
 		return metaSC()
 	default:
@@ -173,7 +173,7 @@ func (g *Gen) mutateOnce(c *Call) {
 	case "recipient":
 		c.Rcv = cp(g.addr("mut-rcv2"))
 	case "calltype":
-		if vmcommon.IsSmartContractAddress(c.Caller) {
+		if refIsSC(c.Caller) {
 			c.CallType = g.pick("mut-ct", 4)
 		}
 	case "gas":
@@ -210,7 +210,7 @@ func (g *Gen) mutCaller(c *Call) {
 	if self && rapid.Bool().Draw(g.t, "mut-keep-self") {
 		c.Rcv = cp(c.Caller)
 	}
-	if vmcommon.IsSystemAccountAddress(c.Rcv) && rapid.Bool().Draw(g.t, "mut-sys-rcv") {
+	if refIsSystemAccount(c.Rcv) && rapid.Bool().Draw(g.t, "mut-sys-rcv") {
 		c.Rcv = cp(c.Caller)
 	}
 	g.reshard(c)
@@ -283,7 +283,7 @@ func (g *Gen) genUnstructured() *Call {
 	case 3:
 		rcv = g.addr("un-rcv2")
 	case 4:
-		rcv = cp(vmcommon.ESDTSCAddress)
+		rcv = cp(refESDTSC)
 	default:
 		rcv = metaSC()
 	}
